@@ -187,6 +187,22 @@ pub fn run(cfg: &Cfg) -> Report {
     rep.exhaustive = false;
     rep.notes.push(format!("exhaustive part: all {n_exh} gene sequences of length 0..={maxlen} over 4 gene kinds; random part: {n_rand} genomes up to 2000 genes over {} inventory instructions", inv.len()));
     // inventory cross-check of num_opens (DupBlock/When/Unless = 1, IfElse = 2, everything else 0)
+    // ... and the Lean model's own table (`Prog.numOpens`, theorems opener_table / literal_opens_nothing) says the same
+    {
+        let mut d = crate::driver::Driver::spawn(&cfg.driver);
+        let progs: Vec<PushProgram> = inv.iter().map(|i| PushProgram::Instruction(i.clone())).collect();
+        let reply = d.ask(&format!("push opens {}", crate::fam_push::progs_string(&progs)));
+        let model: Vec<&str> = reply.split(' ').collect();
+        if model.len() != inv.len() {
+            rep.disagree(json!({"case": "num_opens table of the inventory", "real": format!("{} instructions", inv.len()), "impl": reply.chars().take(200).collect::<String>()}));
+        } else {
+            for (i, m) in inv.iter().zip(model.iter()) {
+                if *m != documented_opens(i).to_string() {
+                    rep.disagree(json!({"case": format!("num_opens of {i}"), "real": i.num_opens(), "impl": m, "what": "the model's table of block openers differs from the table the harness tells it"}));
+                }
+            }
+        }
+    }
     for i in &inv {
         let name = format!("{i}");
         let expect = documented_opens(i);
